@@ -28,6 +28,8 @@ Decides:
                    shared with C10); the completion decision is taken after tokenizing (shared with C10).
  H scope / answer   an adjacent command hands back the scope it was entered with (items behind its block - a help flag - stay visible); once the
                    word being completed is in hand check_complete always answers (a completion request never falls through to the program body).
+ P no abort      the panic-capable sites (indexing, slicing, Vec ops with a precondition, explicit panics) in the tokenizer, the scope iterators and the
+                        parse combinators are the reviewed, guarded ones (shared with C04): a panic is status 101 with a backtrace, not "stderr, status 1".
 Does not decide: byte equality of the text across the process boundary."""
 import re
 from core import *
@@ -38,7 +40,7 @@ from absint import Walker, UNKNOWN, pkey, show
 LEVEL = 'other'
 EXPLANATION = __doc__
 ASSUMPTIONS = ['std::io::_print writes to stdout and _eprint to stderr; process::exit(n) terminates with status n']
-FLOORS = {'X.exit-table': 3, 'S.stream-table': 6, 'R.run-flow': 10, 'A.argv0': 6, 'W.who': 12, 'N.non-empty': 17, 'U.usage-fallback': 1, 'K.completion-marker': 1, 'K.colour': 1, 'W.width-agreement': 1, 'H.help-is-output': 2}
+FLOORS = {'X.exit-table': 3, 'S.stream-table': 6, 'R.run-flow': 10, 'A.argv0': 6, 'W.who': 12, 'N.non-empty': 17, 'U.usage-fallback': 1, 'K.completion-marker': 1, 'K.colour': 1, 'W.width-agreement': 1, 'H.help-is-output': 2, 'P.no-abort': 30}
 
 EXIT_TABLE = {
     'info::OptionParser::<T>::run': 'documented: print the failure and exit with its code',
@@ -77,6 +79,12 @@ def run(ctx):
             ctx.guard(c08_keep, ctx, lambda: c14_.no_late_none(ctx, cfg, fs), lambda o: True, 'K.completion-marker')
         import c08, c09
         ctx.guard(c08.keep_only, ctx, lambda: c09.tokenizer(ctx, cfg, fs), lambda o: 'pos-only' in o.key, 'K.completion-marker')
+        import c04
+        # a panic while tokenizing or walking the scope is neither "stderr + status 1" nor a value: the panic-capable sites on the
+        # parse path stay the reviewed, guarded ones (shared with C04)
+        onpath = lambda o: o.key.startswith(('args::', 'arg::', 'ArgsIter', 'ArgRangesIter', 'ParseAdjacent', 'ParseCommand', 'ParseFlag', 'ParseOrElse', 'ShortLong', 'any', 'positional_invariant'))
+        ctx.guard(c08.keep_only, ctx, lambda: c04.census(ctx, cfg, fs), onpath, 'P.no-abort')
+        ctx.guard(c08.keep_only, ctx, lambda: c04.invariant(ctx, cfg, fs), onpath, 'P.no-abort')
         ctx.guard(run_flow, ctx, cfg, fs)
         ctx.guard(argv0, ctx, cfg, fs)
         ctx.guard(who, ctx, cfg, fs)
